@@ -208,9 +208,10 @@ class Vector3d(Object3d):
         azimuth
         """
         x, y = self.data[..., 0].copy(), self.data[..., 1].copy()
-        # avoid rounding errors
-        x[np.isclose(x, 0)] = 0
-        y[np.isclose(y, 0)] = 0
+        # avoid rounding errors (tolerance relative to the vector length)
+        atol = 1e-8 * self.radial
+        x[np.isclose(x, 0, atol=atol)] = 0
+        y[np.isclose(y, 0, atol=atol)] = 0
         azimuth = np.arctan2(y, x)
         azimuth += (azimuth < 0) * 2 * np.pi
         return azimuth
